@@ -23,7 +23,7 @@ class C06(Engine):
     prop = "C06"
     name = "history-sim"
     level = "exploration"
-    expected_kinds = {"history", "listing_perm", "hashseed", "path_spelling", "mixed_levels", "io_error_in_history", "abort_point"}
+    expected_kinds = {"history", "listing_perm", "hashseed", "path_spelling", "mixed_levels", "io_error_in_history", "abort_point", "interpreter_optimize", "volume_history"}
     rule_text = ("A run is an explicit history of analyses in one process forked from a pristine zygote: all ordered pairs over a "
                  "~50-file stress pool (every distinct fatal raise site / internal-error site reachable from the pools, state-stressing "
                  "files, one of each ordinary class), seeded histories of length 3..8 with varying options, read faults in predecessors "
@@ -107,6 +107,14 @@ class C06(Engine):
             for s in all_ids:
                 yield idx, {"kind": "pair", "probe_state": True, "ops": [{"op": "api", "file": t}, {"op": "api", "file": s}]}
                 idx += 1
+        # (a2) volume: a long-lived process. Hundreds of thousands of statements go through the registry before the victims
+        #      (a budget, a counter or a cache that belongs to the process instead of the file shows only here)
+        from ..workload import header42
+        victims = [f for f in all_ids if P.meta[f]["group"] in ("special_clean", "special_notice", "special_erroneous")][:6]
+        for k, (lines, reps) in enumerate([(3000, 45)] if q else [(3000, 4), (3000, 20), (3000, 45), (3000, 110), (20000, 12)]):
+            filler = {"name": "filler.c", "content": header42("filler.c") + "\n" + "// filler\n" * lines, "origin": f"filler:{lines}"}
+            ops = [{"op": "api", "file": "fill", "no_compare": True} for _ in range(reps)] + [{"op": "api", "file": v} for v in victims]
+            yield idx + 500_000 + k, {"kind": "hist", "volume": lines * reps, "tick_mult": 5, "files": {"fill": filler}, "ops": ops}
         # (b) seeded histories of length 3..8 with varying options
         n_hist = 1200 if q else 30000
         for i in range(n_hist):
@@ -443,6 +451,9 @@ class C06(Engine):
             self.distinct.add(("api", tuple(classes[:-1]), sc["ops"][-1].get("file") or tuple(sc["ops"][-1].get("argv", []))))
             if kind == "mixed":
                 self.fire("mixed_levels")
+            if sc.get("volume"):
+                self.fire("volume_history")
+                self.stats["largest_volume_before_a_victim_statements"] = max(self.stats.get("largest_volume_before_a_victim_statements", 0), sc["volume"])
             self.fire("history", len(ops) - 1)
             pristine = ops[0].get("state_before")
             for i, o in enumerate(ops[1:], 1):
@@ -488,31 +499,56 @@ class C06(Engine):
         panel = sorted(rp.sample(all_ids, min(30 if q else 150, len(all_ids))))
         seeds = [1, 7] if q else [1, 2, 3, 7, 1234]
         scs = []
+        from ..framework import resolved
         for part in range(0, len(panel), 10):
             sc = {"kind": "hashseed", "ops": [{"op": "api", "file": f} for f in panel[part:part + 10]]}
-            from ..framework import resolved
             scs.append(resolved(sc))
+        # the same seam carries the interpreter's optimisation level (python -O / PYTHONOPTIMIZE): validation written as
+        # `assert` disappears there. Victims: the files that are fatally unparsable alone (every distinct raise site first).
+        fatal = sorted((f for f in all_ids if P.cls.get(f) == "fatal"), key=lambda f: (core.site_key(P.alone[f].get("site")) or "", f))
+        seen, opt_panel = set(), []
+        for f in fatal:
+            k = core.site_key(P.alone[f].get("site"))
+            if k not in seen or len(opt_panel) < (40 if q else 200):
+                seen.add(k)
+                opt_panel.append(f)
+        opt_panel = opt_panel[: (80 if q else 400)]
+        n_hs = len(scs)
+        for part in range(0, len(opt_panel), 10):
+            scs.append(resolved({"kind": "hashseed", "ops": [{"op": "api", "file": f} for f in opt_panel[part:part + 10]]}))
         self.ensure_refs(scs)
-        for hs in seeds:
+        for hs in seeds + (["O1"] if q else ["O1", "O2"]):
             env = dict(os.environ)
-            env["PYTHONHASHSEED"] = str(hs)
             env["NSIM_WORKERS"] = "4"
+            if isinstance(hs, str):
+                env["PYTHONHASHSEED"] = "0"
+                env["PYTHONOPTIMIZE"] = hs[1:]
+                todo = list(enumerate(scs))
+            else:
+                env["PYTHONHASHSEED"] = str(hs)
+                todo = list(enumerate(scs))[:n_hs]
+            self.run_shard(env, hs, todo)
+        self.hashseeds = [0] + seeds
+        self.stats["interpreter_optimisation_levels"] = [0, 1] if q else [0, 1, 2]
+
+    def run_shard(self, env, hs, todo):
+        if True:
+            scs = [sc for _, sc in todo]
             p = subprocess.run([sys.executable, "-c",
                                 "import sys; sys.path.insert(0, %r); from nsim import shard; shard.main()" % VERIF],
                                input=json.dumps(scs), capture_output=True, text=True, env=env, timeout=900)
             if p.returncode != 0:
                 raise RuntimeError(f"hash-seed shard failed: {p.stderr[-2000:]}")
             rs = json.loads(p.stdout)
-            for j, (sc, r) in enumerate(zip(scs, rs)):
+            for (j, sc), r in zip(todo, rs):
                 self.evaluations += 1
-                self.fire("hashseed")
+                self.fire("hashseed" if not isinstance(hs, str) else "interpreter_optimize")
                 self.distinct.add(("hashseed", hs, j))
                 vs = self.judge(sc, r, self.refcache)
                 if vs:
                     sc2 = dict(sc)
-                    sc2["boot"] = {"hashseed": hs}
-                    self.record(6_000_000 + hs * 1000 + j, sc2, vs)
-        self.hashseeds = [0] + seeds
+                    sc2["boot"] = {"hashseed": hs} if not isinstance(hs, str) else {"hashseed": 0, "optimize": int(hs[1:])}
+                    self.record(6_000_000 + (hs if not isinstance(hs, str) else 900 + int(hs[1:])) * 1000 + j, sc2, vs)
 
     # ---- driver ----------------------------------------------------------------------------------------
     def run(self):
